@@ -82,12 +82,26 @@ def install_map_models(M):
         it = a[0]
         out = [Str(list(x.b)) for x in it.slice.buf[it.slice.off + it.pos: it.slice.off + it.slice.len]]
         return VecV(out)
+    def m_contains_key(ex, c, a):
+        return mref(ex, a[0]).find(ex, kbytes(ex, a[1])) is not None
+
+    def m_retain(ex, c, a):
+        m = mref(ex, a[0])
+        kept = []
+        for k, v in list(m.entries):
+            holder = Cell(v)
+            if ex.decide(ex.call_closure(a[1], [Ref(Cell(Str(list(k)))), Ref(holder)])):
+                kept.append((k, holder.v))
+        m.entries[:] = kept
+        return UNIT
     MAPS = r'(indexmap::IndexMap|std::collections::HashMap|HashMap|IndexMap)::<std::string::String, .*>'
     for pat, fn in [
         (r'^' + MAPS + r'::get::<', m_get),
         (r'^' + MAPS + r'::get_mut::<', m_get_mut),
         (r'^' + MAPS + r'::(swap_remove|shift_remove|remove)::<', m_remove),
         (r'^' + MAPS + r'::insert$', m_insert),
+        (r'^' + MAPS + r'::contains_key::<', m_contains_key),
+        (r'^' + MAPS + r'::retain::<', m_retain),
         (r'^' + MAPS + r'::keys$', m_keys),
         (r'^<(indexmap::map::|std::collections::hash_map::)?Keys<\'_, std::string::String, .*> as Iterator>::cloned::<', lambda ex, c, a: a[0]),
         (r'^<(std::iter::)?Cloned<.*Keys<\'_, std::string::String, .*>> as Iterator>::collect::<Vec<std::string::String>>$', m_collect),
@@ -224,6 +238,8 @@ class RenameStep(E2Harness):
         self.n1 = self.ident(ex, 'n1_', l1)
         self.n2 = self.ident(ex, 'n2_', l1 + 1)
         self.q = self.ident(ex, 'q_', 1)
+        self.q2 = self.ident(ex, 'q2_', 1)
+        ex.assume(znot(bytes_eq(self.q, self.q2)))
         self.m = self.ident(ex, 'm_', self.lm)
         ex.assume(znot(bytes_eq(self.m, self.n1)) if self.lm == l1 else True)
         slash = bv(0x2f, 8)
@@ -231,25 +247,28 @@ class RenameStep(E2Harness):
         self.ra = [slash] + [z3.BitVec(f'ra_{i}', 8) for i in range(l1)]
         self.rb = [slash] + [z3.BitVec(f'rb_{i}', 8) for i in range(l1 + 2)]
         self.rc = [slash] + [z3.BitVec(f'rc_{i}', 8) for i in range(self.lm)]      # a third reference of the length of the FUTURE path
+        self.rd = [slash] + [z3.BitVec(f'rd_{i}', 8) for i in range(l1 + 1)]       # a fourth one: one character longer than /n1 (the length of /n2)
         # valid reference texts (what set_character_data accepts for a reference): segments [A-Za-z][A-Za-z0-9_]*, separated by /
         from models import is_alpha, is_digit
-        for txt in (self.ra, self.rb, self.rc):
+        for txt in (self.ra, self.rb, self.rc, self.rd):
             for i in range(1, len(txt)):
                 ch = txt[i]
                 ex.assume(z3.Or(is_alpha(ch), is_digit(ch), ch == 0x5f, ch == 0x2f))
                 ex.assume(z3.Implies(txt[i - 1] == 0x2f, is_alpha(ch)))
             ex.assume(txt[-1] != 0x2f)
         q = self.named('pkg', T_PKG, self.q, [])
-        pk2 = self.elem('pkgs', T_PKGS, [Agg('ElementContent', 'Element', [q])])
+        q2 = self.named('pkg', T_PKG, self.q2, [])
+        pk2 = self.elem('pkgs', T_PKGS, [Agg('ElementContent', 'Element', [q]), Agg('ElementContent', 'Element', [q2])])
         self.set_parent(q, pk2)
+        self.set_parent(q2, pk2)
         p1 = self.named('pkg', T_PKG, self.n1, [pk2])
         r_a = self.elem('ref', T_REF, [Agg('ElementContent', 'CharacterData', [cdata_string(list(self.ra))])])
         r_b = self.elem('ref', T_REF, [Agg('ElementContent', 'CharacterData', [cdata_string(list(self.rb))])])
         r_c = self.elem('ref', T_REF, [Agg('ElementContent', 'CharacterData', [cdata_string(list(self.rc))])])
-        refs = self.elem('refs', T_REFS, [Agg('ElementContent', 'Element', [r_a]), Agg('ElementContent', 'Element', [r_b]), Agg('ElementContent', 'Element', [r_c])])
-        self.set_parent(r_a, refs)
-        self.set_parent(r_b, refs)
-        self.set_parent(r_c, refs)
+        r_d = self.elem('ref', T_REF, [Agg('ElementContent', 'CharacterData', [cdata_string(list(self.rd))])])
+        refs = self.elem('refs', T_REFS, [Agg('ElementContent', 'Element', [x]) for x in (r_a, r_b, r_c, r_d)])
+        for x in (r_a, r_b, r_c, r_d):
+            self.set_parent(x, refs)
         p2 = self.named('pkg', T_PKG, self.n2, [refs])
         pkgs = self.elem('pkgs', T_PKGS, [Agg('ElementContent', 'Element', [p1]), Agg('ElementContent', 'Element', [p2])])
         self.set_parent(p1, pkgs)
@@ -258,22 +277,29 @@ class RenameStep(E2Harness):
         self.set_parent(pkgs, root)
         path1 = [slash] + self.n1
         pathq = path1 + [slash] + self.q
+        pathq2 = path1 + [slash] + self.q2
         path2 = [slash] + self.n2
-        self.idents = MapV([(path1, self.weak(p1)), (pathq, self.weak(q)), (path2, self.weak(p2))])
+        self.idents = MapV([(path1, self.weak(p1)), (pathq, self.weak(q)), (pathq2, self.weak(q2)), (path2, self.weak(p2))])
         # consistent referrer lists: references with equal texts share one entry
-        if len(self.rc) == len(self.ra) and ex.decide(bytes_eq(self.rc, self.ra)):
-            self.origins = MapV([(list(self.ra), VecV([self.weak(r_a), self.weak(r_c)])), (list(self.rb), VecV([self.weak(r_b)]))])
-        elif len(self.rc) == len(self.rb) and ex.decide(bytes_eq(self.rc, self.rb)):
-            self.origins = MapV([(list(self.ra), VecV([self.weak(r_a)])), (list(self.rb), VecV([self.weak(r_b), self.weak(r_c)]))])
-        else:
-            self.origins = MapV([(list(self.ra), VecV([self.weak(r_a)])), (list(self.rb), VecV([self.weak(r_b)])), (list(self.rc), VecV([self.weak(r_c)]))])
+        entries = []
+        for txt, el in ((self.ra, r_a), (self.rb, r_b), (self.rc, r_c), (self.rd, r_d)):
+            for k_, v_ in entries:
+                if len(k_) == len(txt) and ex.decide(bytes_eq(k_, txt)):
+                    v_.items.append(self.weak(el))
+                    break
+            else:
+                entries.append((list(txt), VecV([self.weak(el)])))
+        self.origins = MapV(entries)
         self.n_keys0 = len(self.origins.entries)
         model_raw = Agg('AutosarModelRaw', None, [root, VecV(), self.idents, self.origins])
         model = Agg('AutosarModel', None, [Agg('Arc', None, [Ref(Cell(Agg('RwLock', None, [model_raw])))])])
         self.raw(root).fields[0] = Agg('ElementOrModel', 'Model', [Opaque('WeakAutosarModel')])
-        self.p1, self.p2, self.qe, self.r_a, self.r_b, self.r_c, self.pkgs = p1, p2, q, r_a, r_b, r_c, pkgs
+        self.p1, self.p2, self.qe, self.q2e, self.r_a, self.r_b, self.r_c, self.r_d, self.pkgs, self.refs_e = p1, p2, q, q2, r_a, r_b, r_c, r_d, pkgs, refs
+        self.all_refs = [(r_a, self.ra), (r_b, self.rb), (r_c, self.rc), (r_d, self.rd)]
         if getattr(self, '_build_only', False):
             f_rm = find_fn(ex.prog, '::remove_sub_element', 'elementraw.rs')
+            if self.which == 'ref':
+                return ex.call(f_rm, [Ref(Cell(self.raw(refs))), r_a, Ref(Cell(model))])
             victim = p1 if self.which == 'p1' else p2
             return ex.call(f_rm, [Ref(Cell(self.raw(pkgs))), victim, Ref(Cell(model))])
         f_set = find_fn(ex.prog, '::set_item_name', 'elementraw.rs')
@@ -307,9 +333,9 @@ class RenameStep(E2Harness):
             if A == 'c04':
                 self.require(ex, dup, 'a rename to a free name is rejected')
                 self.require(ex, bytes_eq(self.name_of(self.p1), self.n1), 'a rejected rename changed the name')
-                self.require(ex, len(self.idents.entries) == 3, 'a rejected rename changed the path index')
+                self.require(ex, len(self.idents.entries) == 4, 'a rejected rename changed the path index')
             if A == 'c06':
-                self.require(ex, zand(bytes_eq(self.text_of(self.r_a), self.ra), bytes_eq(self.text_of(self.r_b), self.rb), bytes_eq(self.text_of(self.r_c), self.rc)), 'a rejected rename changed a reference')
+                self.require(ex, zand(*[bytes_eq(self.text_of(e_), t_) for e_, t_ in self.all_refs]), 'a rejected rename changed a reference')
             if A == 'c05':
                 self.require(ex, len(self.origins.entries) == self.n_keys0, 'a rejected rename changed the referrer lists')
             return
@@ -319,47 +345,54 @@ class RenameStep(E2Harness):
             self.require(ex, znot(dup), 'a rename to the name of a sibling is accepted: two elements with one path')
             self.require(ex, bytes_eq(self.name_of(self.p1), self.m), 'the element does not carry the new name')
             # C04: the index holds exactly the three identifiable elements under their current paths
-            want = [(new1, self.p1), (new1 + [slash] + self.q, self.qe), ([slash] + self.n2, self.p2)]
-            self.require(ex, len(self.idents.entries) == 3, 'the path index has lost or gained entries')
+            want = [(new1, self.p1), (new1 + [slash] + self.q, self.qe), (new1 + [slash] + self.q2, self.q2e), ([slash] + self.n2, self.p2)]
+            self.require(ex, len(self.idents.entries) == 4, 'the path index has lost or gained entries')
             for path, e in want:
                 hits = [(k, v) for k, v in self.idents.entries if len(k) == len(path)]
                 cond = z3.Or(*[z3.And(bytes_eq(k, path), z3.BoolVal(self.same_elem(v, e))) for k, v in hits]) if hits else False
                 self.require(ex, cond, 'an identifiable element is not found under its current path')
             return
         if A == 'c05':
-            for ref_e in (self.r_a, self.r_b, self.r_c):
+            for ref_e, _t0 in self.all_refs:
                 t = self.text_of(ref_e)
                 hits = [(k, v) for k, v in self.origins.entries if len(k) == len(t)]
                 cond = z3.Or(*[z3.And(bytes_eq(k, t), z3.BoolVal(sum(1 for w in v.items if self.same_elem(w, ref_e)) == 1)) for k, v in hits]) if hits else False
                 self.require(ex, cond, 'a reference is not listed (exactly once) under its current text in the referrer lists', known_key=self.known_class(ex))
             total = sum(len(v.items) for _k, v in self.origins.entries)
-            self.require(ex, total == 3, 'the referrer lists have lost or gained entries', known_key=self.known_class(ex))
+            self.require(ex, total == 4, 'the referrer lists have lost or gained entries', known_key=self.known_class(ex))
             return
-        # C06: references that designated P1 or an element below it follow; all others keep their text
-        for ref_e, old in ((self.r_a, self.ra), (self.r_b, self.rb), (self.r_c, self.rc)):
+        # C06: references that designated P1 or an identifiable element below it follow; references that have nothing to do with
+        # P1 keep their text; a DANGLING reference below the old path (no such element) may do either - the property does not say
+        for ref_e, old in self.all_refs:
             new = self.text_of(ref_e)
-            designates = bytes_eq(old[:len(old1)], old1) if len(old) >= len(old1) else False
+            below = bytes_eq(old[:len(old1)], old1) if len(old) >= len(old1) else False
             if len(old) > len(old1):
-                designates = zand(designates, old[len(old1)] == slash)
+                below = zand(below, old[len(old1)] == slash)
+            exists = False
+            if len(old) == len(old1):
+                exists = below
+            elif len(old) == len(old1) + 2:
+                exists = zand(below, z3.Or(bytes_eq(old[len(old1) + 1:], self.q), bytes_eq(old[len(old1) + 1:], self.q2)))
             exp_follow = new1 + old[len(old1):]
             follow_ok = bytes_eq(new, exp_follow) if len(new) == len(exp_follow) else False
             keep_ok = bytes_eq(new, old) if len(new) == len(old) else False
-            self.require(ex, z3.If(zb(designates), zb(follow_ok), zb(keep_ok)), 'a reference to the renamed element (or below it) was not rewritten, or another reference was changed')
+            self.require(ex, z3.If(zb(exists), zb(follow_ok), z3.If(zb(below), z3.Or(zb(follow_ok), zb(keep_ok)), zb(keep_ok))),
+                         'a reference to the renamed element (or to an element below it) was not rewritten, or an unrelated reference was changed')
 
     def known_class(self, ex):
         return None
 
     def replay_vals(self, m):
         out = []
-        for bs in (self.n1, self.n2, self.q, self.m, self.ra, self.rb, self.rc):
+        for bs in (self.n1, self.n2, self.q, self.m, self.ra, self.rb, self.rc, self.rd, self.q2):
             out += [[len(bs)]] + [[x] for x in model_bytes(m, bs)]
         out.append([{'c04': 4, 'c05': 5, 'c06': 6, 'c03': 3}[self.aspect]])
-        out.append([0 if getattr(self, 'which', 'p1') == 'p1' else 1])
+        out.append([{'p1': 0, 'p2': 1, 'ref': 2}[getattr(self, 'which', 'p1')]])
         return out
 
     def describe(self, m):
         f = lambda bs: bytes(model_bytes(m, bs)).decode('latin1')
-        return f"P1={f(self.n1)!r} Q={f(self.q)!r} P2={f(self.n2)!r} new name={f(self.m)!r} references={f(self.ra)!r}, {f(self.rb)!r}, {f(self.rc)!r}"
+        return f"P1={f(self.n1)!r} Q={f(self.q)!r} P2={f(self.n2)!r} new name={f(self.m)!r} Q2={f(self.q2)!r} references={f(self.ra)!r}, {f(self.rb)!r}, {f(self.rc)!r}, {f(self.rd)!r}"
 
 
 @register
@@ -384,12 +417,19 @@ class RemoveStep(RenameStep):
         if r.variant != 'Ok':
             return
         slash = bv(0x2f, 8)
-        gone = self.p1 if self.which == 'p1' else self.p2
-        kept = [(([slash] + self.n2), self.p2)] if self.which == 'p1' else [(([slash] + self.n1), self.p1), ([slash] + self.n1 + [slash] + self.q, self.qe)]
+        path1 = [slash] + self.n1
+        all_ids = [(path1, self.p1), (path1 + [slash] + self.q, self.qe), (path1 + [slash] + self.q2, self.q2e), ([slash] + self.n2, self.p2)]
+        if self.which == 'p1':
+            gone, parent, kept, kept_refs = self.p1, self.pkgs, all_ids[3:], list(self.all_refs)
+        elif self.which == 'p2':
+            gone, parent, kept, kept_refs = self.p2, self.pkgs, all_ids[:3], []
+        else:
+            gone, parent, kept, kept_refs = self.r_a, self.refs_e, all_ids, self.all_refs[1:]
         if self.aspect == 'c04':
             # the removed element is unlinked: not listed by its former parent, no parent, no content
-            listed = [it.fields[0] for it in self.raw(self.pkgs).fields[3].items]
-            self.require(ex, not any(x.fields[0].fields[0].cell is gone.fields[0].fields[0].cell for x in listed) and len(listed) == 1, 'the removed element is still listed by its parent (or a sibling was removed)')
+            listed = [it.fields[0] for it in self.raw(parent).fields[3].items]
+            n_before = 2 if self.which in ('p1', 'p2') else 4
+            self.require(ex, not any(x.fields[0].fields[0].cell is gone.fields[0].fields[0].cell for x in listed) and len(listed) == n_before - 1, 'the removed element is still listed by its parent (or a sibling was removed)')
             self.require(ex, self.raw(gone).fields[0].variant == 'None' and len(self.raw(gone).fields[3].items) == 0, 'the removed element keeps a parent or content')
             # C04: exactly the identifiable elements that are still part of the model are in the index
             self.require(ex, len(self.idents.entries) == len(kept), 'the path index keeps entries of removed elements or lost entries of other elements')
@@ -398,8 +438,10 @@ class RemoveStep(RenameStep):
                 cond = z3.Or(*[z3.And(bytes_eq(k, path), z3.BoolVal(self.same_elem(v, e))) for k, v in hits]) if hits else False
                 self.require(ex, cond, 'an identifiable element that is still part of the model is not found under its path')
             return
-        # C05: the referrer lists hold exactly the references that are still part of the model
-        if self.which == 'p2':
-            self.require(ex, len(self.origins.entries) == 0, 'the referrer lists keep references that were removed with their package')
-        else:
-            self.require(ex, len(self.origins.entries) == self.n_keys0 and sum(len(v.items) for _k, v in self.origins.entries) == 3, 'removing a package changed the referrer lists of references outside it')
+        # C05: the referrer lists hold exactly the references that are still part of the model, each once under its text
+        total = sum(len(v.items) for _k, v in self.origins.entries)
+        self.require(ex, total == len(kept_refs), 'the referrer lists keep references that were removed, or lost references that are still part of the model')
+        for ref_e, t in kept_refs:
+            hits = [(k, v) for k, v in self.origins.entries if len(k) == len(t)]
+            cond = z3.Or(*[z3.And(bytes_eq(k, t), z3.BoolVal(sum(1 for w in v.items if self.same_elem(w, ref_e)) == 1)) for k, v in hits]) if hits else False
+            self.require(ex, cond, 'a reference that is still part of the model is not listed (exactly once) under its text')
